@@ -102,12 +102,12 @@ Proof. unfold packet_header_read. sp_tac. Qed.
 Lemma Forall_map_const {A B} (P : B -> Prop) (b : B) (l : list A) : P b -> Forall P (map (fun _ => b) l).
 Proof. intros H. induction l; cbn; constructor; auto. Qed.
 
-Lemma sp_qr_new fo proto : Forall dtype_ok proto -> sp (qr_new fo proto) qr_ok.
+Lemma sp_qr_new fo recs proto : Forall dtype_ok proto -> sp (qr_new fo recs proto) qr_ok.
 Proof.
   intros Hp. unfold qr_new.
   apply (sp_bind _ _ anyv); [apply spT_r_seek|intros _ _].
   apply (sp_bind _ _ anyv); [apply sp_cv_header_read|intros h _].
-  apply (sp_bind _ _ anyv); [apply spT_r_seek|intros _ _].
+  apply (sp_bind _ _ anyv); [destruct (0 <? recs); [apply spT_r_seek|apply spT_rret]|intros _ _].
   apply sp_rret. unfold qr_ok. cbn [q_proto q_streams q_queues].
   rewrite !map_length. repeat split; [exact Hp|].
   apply Forall_map_const. exact bsr_new_ok.
@@ -147,11 +147,8 @@ Proof.
     apply (sp_bind _ _ (fun l => length l = length (q_proto q))); [apply sp_read_sizes|intros sizes Hsz].
     apply (sp_bind _ _ (fun r => Forall bsr_ok r /\ length r = length (q_streams q)));
       [apply sp_read_streams; [exact Hs|congruence]|intros streams [Hst1 Hst2]].
-    apply (sp_bind _ _ anyv).
-    { apply sp_rlift. pose proof (min_queue_size_no_panic (q_proto q) streams (q_queues q) None Hst1) as Hm.
-      destruct (min_queue_size (q_proto q) streams (q_queues q) None); cbn; [exact I|exact I|congruence]. }
-    intros [m|] _; [|apply sp_rfail].
-    pose proof (parse_streams_ok (q_proto q) streams (q_queues q) m Hp Hst1 ltac:(congruence) Hl2) as Hps.
+    destruct (negb (has_sized (q_proto q))); [apply sp_rfail|].
+    pose proof (parse_streams_ok (q_proto q) streams (q_queues q) Hp Hst1 ltac:(congruence) Hl2) as Hps.
     apply (sp_bind _ _ (fun p => Forall bsr_ok (fst p) /\ length (fst p) = length (q_proto q) /\
                                  length (snd p) = length (q_proto q))); [apply sp_rlift; exact Hps|].
     intros [ss qs] (A1 & A2 & A3). cbn [fst snd] in *.
@@ -180,8 +177,8 @@ Proof.
   intros Hit. unfold raw_next.
   destruct (ri_records it <=? ri_read it); [apply sp_rret; exact Hit|].
   apply (sp_bind _ _ qr_ok); [apply sp_refill; exact Hit|intros q (Hp & Hl1 & Hl2 & Hs)].
-  pose proof (pop_fronts_ok (q_queues q)) as Hpf.
-  destruct (pop_fronts (q_queues q)) as [[vs qs]|k|]; cbn [rpost snd] in Hpf; [|apply sp_rfail|contradiction].
+  pose proof (pop_fronts_ok (q_proto q) (q_queues q) Hl2) as Hpf.
+  destruct (pop_fronts (q_proto q) (q_queues q)) as [[vs qs]|k|]; cbn [rpost snd] in Hpf; [|apply sp_rfail|contradiction].
   apply sp_rret. cbn [fst]. unfold raw_ok, qr_ok. cbn [ri_q q_proto q_streams q_queues].
   repeat split; [assumption|assumption|congruence|assumption].
 Qed.
